@@ -219,8 +219,10 @@ fn main() {
                     if b != last {
                         last = b;
                         since = std::time::Instant::now();
-                    } else if since.elapsed().as_secs() >= stall && b & 0xff != 0 {
-                        let phase = ["", "poll", "push", "drop"][(b & 0xff) as usize & 3];
+                    } else if since.elapsed().as_secs() >= stall {
+                        // phase "harness": no crate call is open; then the driver itself loops,
+                        // which the orchestrator reports as inconclusive, not as a violation
+                        let phase = ["harness", "poll", "push", "drop"][(b & 0xff) as usize & 3];
                         let _ = writeln!(std::io::stdout(), "HANG {{\"hist\":{},\"phase\":\"{}\",\"stall_s\":{},\"worker\":\"{}\"}}", b >> 8, phase, stall, label);
                         let _ = std::io::stdout().flush();
                         std::process::exit(3);
@@ -471,6 +473,46 @@ fn main() {
                     o.done()
                 })
                 .raw("observed", stats_json(&tot))
+                .num("wall_ms", t0.elapsed().as_millis())
+                .done();
+            println!("{out}");
+        }
+        "pingpong" => {
+            let seed: u64 = arg(&args, "--seed", 1u64);
+            let rounds: u64 = arg(&args, "--rounds", 2_000_000u64);
+            let runs: u64 = arg(&args, "--runs", 8u64);
+            let budget_ms: u64 = arg(&args, "--budget-ms", 20_000u64);
+            futures_buffered::verif::set_probe(None);
+            let t0 = std::time::Instant::now();
+            let (mut total, mut polls) = (0u64, 0u64);
+            let mut viols: Vec<String> = Vec::new();
+            for i in 0..runs {
+                let left = budget_ms.saturating_sub(t0.elapsed().as_millis() as u64);
+                if left == 0 {
+                    break;
+                }
+                let st = mt::pingpong(seed.wrapping_add(i), rounds / runs.max(1), left);
+                total += st.rounds;
+                polls += st.polls;
+                for l in st.lost {
+                    if viols.len() < 6 {
+                        viols.push(Obj::new().str("property", "C01").str("rule", "lost_wakeup_pingpong").str("subject", "pingpong").str("detail", &l).num("seed", seed.wrapping_add(i)).done());
+                    }
+                }
+            }
+            let out = Obj::new()
+                .str("mode", "pingpong")
+                .num("prop", 1)
+                .num("seed", seed)
+                .num("histories", total)
+                .num("nontrivial", total)
+                .num("distinct_nontrivial", 0)
+                .bool("watchdog", false)
+                .raw("violations", arr(viols.clone()))
+                .raw("violation_counts", Obj::new().num("C01/lost_wakeup_pingpong/pingpong", viols.len()).done())
+                .raw("inconclusive", Obj::new().done())
+                .raw("subjects", Obj::new().num("pingpong", total).done())
+                .raw("observed", Obj::new().num("pingpong_rounds", total).num("pingpong_collection_polls", polls).done())
                 .num("wall_ms", t0.elapsed().as_millis())
                 .done();
             println!("{out}");
